@@ -1,17 +1,30 @@
 /-
-Skiplist, single-level fragment: the invariant `Inv` between operations, the search from the header
+Skiplist: the invariant `Inv` between operations, the search from the header
 (`search_top`), and the dictionary's sorted-list operations expressed as the same walk the search
 loop performs (`findEntry_walk`, `insertEntry_walk`, `eraseEntry_walk`).
 -/
-import QbVerif.Lemmas.SlBasic
+import QbVerif.Lemmas.SlmSearch
 
 namespace QbVerif.Skiplist
 open QbVerif.Map
 set_option linter.unusedSimpArgs false
 
-/-- the state between two operations (iterator-free history, all levels drawn 0) -/
+/-- number of iterators parked on node `i` -/
+def parked (its : List (Nat × Option NodeId)) (i : NodeId) : Nat := (its.filter fun p => p.2 == some i).length
+
+/-- `i->refcount` (0 when not allocated) -/
+def rcOf (s : SL) (i : NodeId) : Nat := match s.nodes i with | some n => n.refcount | none => 0
+
+/-- `i->key` (`none`: the header's NULL key, or not allocated) -/
+def keyOf (s : SL) (i : NodeId) : Option Key := match s.nodes i with | some n => n.key | none => none
+
+/-- `i->level + 1` (0 when not allocated) -/
+def lvOf (s : SL) (i : NodeId) : Nat := match s.nodes i with | some n => n.lv | none => 0
+
+/-- the state between two operations (all levels; any number of open iterators, each parked
+    on the header, on a LINKED node, or at the end) -/
 structure Inv (s : SL) (ids : List NodeId) (es : List Entry) (g : List Notifier) : Prop where
-  hdr : ∃ f a v, s.nodes s.header = some ⟨none, v, LEVEL_MAX + 1, 1, f, g⟩ ∧ s.fwds f = some a
+  hdr : ∃ f a v rc, s.nodes s.header = some ⟨none, v, LEVEL_MAX + 1, rc, f, g⟩ ∧ s.fwds f = some a
   chain : Chain s s.header ids es
   nodup : (s.header :: ids).Nodup
   /-- forward arrays are not shared -/
@@ -19,14 +32,35 @@ structure Inv (s : SL) (ids : List NodeId) (es : List Entry) (g : List Notifier)
   freshN : ∀ i ∈ s.header :: ids, i < s.nextNode
   freshF : ∀ i ∈ s.header :: ids, fwdOf s i < s.nextFwd
   sorted : Sorted es
-  lv : s.lv ≤ 1 ∧ (es ≠ [] → s.lv = 1)
+  lv : s.lv ≤ LEVEL_MAX + 1
   len : s.length = es.length
-  iters : s.iters = []
+  /-- refcount = 1 (linked) + the iterators parked on the node -/
+  rc : ∀ i ∈ s.header :: ids, rcOf s i = 1 + parked s.iters i
+  /-- iterators are parked on the header or on linked nodes -/
+  pos : ∀ p ∈ s.iters, ∀ q, p.2 = some q → q ∈ s.header :: ids
+  ikeys : (s.iters.map (·.1)).Nodup
   ok : s.crashed = false
+  /-- entries of a forward array at and above the node's level are NULL -/
+  above : ∀ i ∈ ids, ∀ a, s.fwds (fwdOf s i) = some a → ∀ l, lvOf s i ≤ l → a l = none
+  /-- the higher levels: one chain per level, each a sub-sequence of the one below, empty from
+      `list->level + 1` on, holding only nodes that are tall enough -/
+  hl : ∃ ch : Nat → List NodeId, Levels s ids ch ∧ (∀ l, s.lv ≤ l → ch l = []) ∧ (∀ l, ∀ i ∈ ch l, l < lvOf s i)
 
 theorem Inv.hxok {s ids es g} (h : Inv s ids es g) : XOk s s.header := by
-  obtain ⟨f, a, v, h1, h2⟩ := h.hdr
+  obtain ⟨f, a, v, rc, h1, h2⟩ := h.hdr
   exact ⟨_, a, h1, h2⟩
+
+theorem parked_eq_zero {its : List (Nat × Option NodeId)} {i : NodeId} (h : ∀ p ∈ its, p.2 ≠ some i) : parked its i = 0 := by
+  unfold parked
+  rw [List.length_eq_zero_iff, List.filter_eq_nil_iff]
+  intro p hp
+  simpa using h p hp
+
+theorem Inv.not_parked_fresh {s ids es g} (h : Inv s ids es g) {i : NodeId} (hi : s.nextNode ≤ i) : parked s.iters i = 0 := by
+  apply parked_eq_zero
+  intro p hp he
+  have := h.freshN i (h.pos p hp i he)
+  exact absurd this (Nat.not_lt.2 hi)
 
 /-! ### the walk -/
 
@@ -145,31 +179,6 @@ theorem eraseEntry_walk (k : Key) (x : Entry) (xs : List Entry) (hs : Sorted (x 
     · have h3 : (x.key == k) = false := by simpa using h2
       simp [h1', h2, h3, hf]
 
-/-! ### searching from the header -/
-
-theorem search_top {s ids es g} (h : Inv s ids es g) (key : Key) (stopEq : Bool) :
-    ∃ u', u' 0 = predOf key s.header ids es ∧
-      s.search key stopEq s.fuel s.header s.lv (fun _ => s.header) =
-        .ok (searchRes key stopEq s.header ids es u') := by
-  by_cases hl : s.lv = 1
-  · rw [hl]
-    exact search_spec s key stopEq es ids s.header s.fuel _ h.chain h.hxok (by simp [SL.fuel, h.len])
-  · have h0 : s.lv = 0 := by have := h.lv.1; omega
-    have he : es = [] := by
-      cases es with
-      | nil => rfl
-      | cons e es => have := h.lv.2 (by simp); omega
-    subst he
-    have hi : ids = [] := by
-      have := h.chain.length_eq
-      cases ids with
-      | nil => rfl
-      | cons _ _ => simp at this
-    subst hi
-    refine ⟨fun _ => s.header, by simp [predOf], ?_⟩
-    rw [h0]
-    simp [SL.fuel, SL.search, searchRes, succOf, predOf]
-
 /-- moving the start of a chain: `x` now points to what `i` pointed to -/
 theorem Chain.retarget {s s' : SL} {x i : NodeId} : ∀ {ids es}, Chain s i ids es → next0 s' x = next0 s i →
     (∀ j ∈ ids, s'.nodes j = s.nodes j ∧ s'.fwds (fwdOf s j) = s.fwds (fwdOf s j)) → Chain s' x ids es
@@ -178,10 +187,10 @@ theorem Chain.retarget {s s' : SL} {x i : NodeId} : ∀ {ids es}, Chain s i ids 
     show next0 s' x = none
     rw [hn, h0]
   | j :: ids, e :: es, h, hn, hf => by
-    obtain ⟨h1, ⟨f, a, h2, h3⟩, h4⟩ := h
+    obtain ⟨h1, ⟨lv, rc, f, a, hrc, hl1, hl2, h2, h3⟩, h4⟩ := h
     refine ⟨by rw [hn, h1], ?_, Chain.frame h4 hf⟩
     obtain ⟨hn', ha'⟩ := hf j (by simp)
-    refine ⟨f, a, by rw [hn', h2], ?_⟩
+    refine ⟨lv, rc, f, a, hrc, hl1, hl2, by rw [hn', h2], ?_⟩
     simp only [fwdOf, h2] at ha'
     rw [ha', h3]
   | [], _ :: _, h, _, _ => by cases h
